@@ -65,7 +65,9 @@ def api_term(yp, t):
     if k == '_':
         return yp.variable()
     if k == 'L':
-        return yp.makelist([api_term(yp, x) for x in t[1]])
+        items = [api_term(yp, x) for x in t[1]]
+        yp.makelist(items)                 # the caller's list is the caller's: building a term from it twice
+        return yp.makelist(items)          # gives the same term twice
     if k == 'P':
         tail = api_term(yp, t[2])
         for x in reversed(t[1]):
@@ -158,6 +160,20 @@ def case(rep, drv, rnd, i, tier):
     if n != 1:
         rep.violation(dict(payload, kind='API-built term (%s) unifies %d times with the compiled literal' % (hist, n)))
         return
+    # an engine that is used again after clear(): the empty list is still the empty list
+    if i % 4 == 0:
+        y4 = E.YP()
+        y4.load_script_from_string(code)
+        y4.clear()
+        y4.load_script_from_string(code)
+        if pos == 'dynamic':
+            list(y4.query('mk', []))
+        X4 = y4.variable()
+        vals4 = [E.to_python(X4) if proper else None for _ in y4.query('p', [X4])]
+        api4 = [E.to_python(y4.atom('[]')), E.to_python(y4.makelist([])), E.to_python(y4.listpair(y4.atom('a'), y4.atom('[]')))]
+        if (proper and vals4 != [expected_python(lit)]) or api4 != [[], [], ['a']]:
+            rep.violation(dict(payload, kind='to_python on an engine used again after clear()', got=repr(vals4)[:200], api=repr(api4)))
+            return
     # atoms: one object per name per engine
     for a in [x for x in [lit] if x[0] == 'A']:
         if yp.atom(a[1]) is not yp.atom(a[1]) or yp.atom(a[1]) is y2.atom(a[1]):
